@@ -220,13 +220,15 @@ Theorem C17_src_methods_are_the_model : forall hops o s, In o (oto_run hops) ->
 Proof. exact src_methods_eq_model_on_reachable. Qed.
 Print Assumptions C17_src_methods_are_the_model.
 
-(* (T), source level, ManyToMany: the bodies of add and remove (statements on
-   self.data / self.inv.data, dicts of set objects mutated in place), transcribed
-   from the CURRENT source, are the model's m_add / m_remove on every reachable
-   instance through either side (remove: the KeyErrors of its second half never fire). *)
-Theorem C17_src_m2m_add_remove_are_the_model : forall hops m s, In m (m2m_run hops) ->
+(* (T), source level, ManyToMany: the bodies of add, remove and __delitem__
+   (statements on self.data / self.inv.data, dicts of set objects mutated in
+   place; a loop over the popped set), transcribed from the CURRENT source, are
+   the model's m_add / m_remove / m_delitem on every reachable instance through
+   either side (the KeyErrors of the inverse-side updates never fire). *)
+Theorem C17_src_m2m_methods_are_the_model : forall hops m s, In m (m2m_run hops) ->
   let x := m2m_side s m in
   (forall k v, srcm_add x k v = Ok (VNone, m_add x k v)) /\
-  (forall k v, srcm_remove x k v = lift_m (m_remove x k v)).
-Proof. exact srcm_eq_model_on_reachable. Qed.
-Print Assumptions C17_src_m2m_add_remove_are_the_model.
+  (forall k v, srcm_remove x k v = lift_m (m_remove x k v)) /\
+  (forall k, srcm_delitem x k = lift_m (m_delitem x k)).
+Proof. exact srcm_eq_model_on_reachable3. Qed.
+Print Assumptions C17_src_m2m_methods_are_the_model.
